@@ -33,6 +33,11 @@ RULES = {
              'records that offset for the entry (set_value_as_ok / write_new_key_value / update_key / write_key)',
     'C06.j': 'a client mutation (store, increment) never stores the state Ok: whatever it writes differs from the disk at least by its '
              'version, so the entry must be selected by the next incremental snapshot (state Updated / New)',
+    'C06.k': 'the loader gets every byte of a payload: a read of a variable-length key / value goes straight to the File or uses '
+             'read_exact — a plain `read` through a BufReader hands out at most what is left in its buffer and the rest of the value '
+             'stays zero-filled',
+    'C06.l': 'the state a refused write hands to the conflict resolver (VersionError.state, used for the in-conflict marker write) is the '
+             'state after an update (New / Updated), so the marker version is selected by the next incremental snapshot',
     'C06.h': 'the loader advances its running key-record offset on every record it consumed: no path from a record read back to '
              'the loop head skips the advance',
     'C06.e': 'the snapshot selects state != Ok, or everything when reclaiming',
@@ -512,6 +517,26 @@ def offsets_rules(ck, m):
                           '%s can store an entry in state Ok (%s): the incremental snapshot selects state != Ok only, so the version written by '
                           'this mutation never reaches the key file and a restart restores the older version' % (short(mb.id), sorted(vs)), mb.loc(bi_))
     ck.floor('C06.j', nj, 3, 'Value aggregates built by the store and the increment')
+    # ---- (l) the state carried by VersionError -------------------------------------------------
+    sbod = store_fn(m)
+    upd = [b for b in P.user_bodies() if b.kind == 'method' and b.argc == 1 and b.locals[0] == 'nundb::bo::ValueStatus' and b.locals[1] == '&nundb::bo::Value']
+    nl_ = 0
+    for bi_, bl_ in enumerate(sbod.blocks):
+        if bl_.get('cleanup'):
+            continue
+        for s_ in bl_['s']:
+            if s_['k'] == 'assign' and s_['r']['k'] == 'agg' and s_['r'].get('variant') == 'VersionError' and 'state' in s_['r'].get('fields', []):
+                nl_ += 1
+                op = s_['r']['ops'][s_['r']['fields'].index('state')]
+                roots = origins(sbod, op, stop_at_calls=True)
+                from_update = bool(roots) and bool(upd) and all(r[0] == 'call' and callee(sbod.term(r[1])) == upd[0].id for r in roots)
+                ck.ob('C06.l', short(sbod.id), 'version-error-carries-updated-state', from_update,
+                      'VersionError.state is the state after an update' if from_update else
+                      'VersionError.state is %s, not the result of the update-state function: the arbiter path writes the in-conflict marker '
+                      '(version -2) with that state; for a key that was clean on disk it stays Ok, the incremental snapshot skips it and a restart '
+                      'brings the key back with its pre-conflict version while the conflict record survives'
+                      % sorted({r[0] if r[0] != 'param' else 'old.' + '.'.join(q[2] for q in r[-1] if q[0] == 'f') for r in roots}), sbod.loc(bi_))
+    ck.floor('C06.l', nl_, 1, 'VersionError aggregates in the store')
     # ---- (i) offsets recorded before they are advanced ------------------------------------------
     from props.C07 import natural_loops as _nl
     wloops = _nl(wb)
@@ -623,3 +648,21 @@ def offsets_rules(ck, m):
                 'a record read at %s can be followed by the next iteration without advancing the running key offset: every later key is '
                 'loaded with a key_disk_addr that is too small and the next in-place update overwrites another record' % skipping[:2])
     ck.ob('C06.h', short(lb.id), 'offset-advanced-per-record', okh, whyh, '%s:%s' % (lb.file, lb.line))
+    # ---- (k) whole payloads -------------------------------------------------------------------
+    short_reads = []
+    nreads = 0
+    for bi, t in lb.calls():
+        if callee_decl(t) not in ('std::io::Read::read',):
+            continue
+        nreads += 1
+        da = t['f'].get('dargs', '')
+        recv = lb.locals[(t['args'][0].get('m') or t['args'][0].get('c') or {'l': 0})['l']] if (t['args'][0].get('m') or t['args'][0].get('c')) else ''
+        buffered = 'BufReader' in da or 'BufReader' in recv or 'Take<' in da
+        if buffered:
+            short_reads.append(lb.loc(bi))
+    ck.ob('C06.k', short(lb.id), 'payload-read-whole', not short_reads,
+          'the loader reads its records straight from the files' if not short_reads else
+          'the loader reads through a buffered reader with plain `read` at %s and ignores the count: a value longer than what is left in the '
+          'buffer comes back as its first bytes followed by NULs (same length), or the start fails on a cut UTF-8 character' % short_reads[:3],
+          '%s:%s' % (lb.file, lb.line))
+    ck.floor('C06.k', nreads, 4, 'reads in the loader')
